@@ -24,7 +24,7 @@ TIERS = {'quick': {'runs': 3000, 'budget_s': 80}, 'thorough': {'runs': 250000, '
 PROBES = ('control_verified', 'ledger_entry_not_ref_valid', 'control_failed', 'nonsemantic_skipped', 'mutant_rejected_raise', 'mutant_rejected_falsy',
           'ref_unparsable_skipped', 'splice_cross_history', 'issuer_rewrite', 'subkey_signer', 'msg_multi_signer',
           'verifier_behind_signer', 'sig_expired_at_verify')
-FAULTS = ('sig_flip_hdr', 'sig_flip_hlen', 'sig_flip_hashed', 'sig_flip_mpi', 'sig_type', 'sig_halg', 'sig_pkalg', 'issuer_rewrite',
+FAULTS = ('sig_mpi_widen', 'sig_flip_hdr', 'sig_flip_hlen', 'sig_flip_hashed', 'sig_flip_mpi', 'sig_type', 'sig_halg', 'sig_pkalg', 'issuer_rewrite',
           'doc_flip', 'doc_append', 'doc_truncate', 'doc_eol', 'uid_edit', 'uid_swap', 'key_flip', 'key_ctime', 'subkey_swap',
           'target_swap', 'splice_sig', 'msg_literal_flip', 'msg_sig_flip', 'cleartext_edit', 'sp_value')
 
@@ -170,6 +170,20 @@ def mutate(art, d, w, history, ctx):
                 m0, m1 = lay['mpis'][int(pos * 7919) % len(lay['mpis'])]
                 a.sig = _flip(a.sig, m0, m1, pos, bit)
                 return (a, False) if a.sig else None
+            if f == 'sig_mpi_widen':
+                # the same low-order octets with k * 2^(8*len) added on top: another integer in a wider field
+                if not lay['mpis']:
+                    return None
+                from ..ref.wire import mpi as _mpi
+                m0, m1 = lay['mpis'][int(pos * 7919) % len(lay['mpis'])]
+                b0, b1 = m0 - lay['h'], m1 - lay['h']
+                old = int.from_bytes(lay['body'][b0:b1], 'big')
+                new = old + (((d['alt'] % 255) + 1) << (8 * (b1 - b0) if bit % 2 else 256))
+                if new == old:
+                    return None
+                nb = lay['body'][:b0 - 2] + _mpi(new) + lay['body'][b1:]
+                a.sig = encode_packet(2, nb)
+                return a, False
             if f in ('sig_type', 'sig_halg', 'sig_pkalg'):
                 m = bytearray(a.sig)
                 if f == 'sig_type':
